@@ -79,6 +79,8 @@ def scenario(c, d, runs=None):
     T = len(c["pos"])
     pre = os.path.join(d, "c%s_" % c["id"])
     L = ["natoms %d" % c["natoms"]] + list(c.get("setup", [])) + ["show err 1"]
+    if c.get("show_tf"):
+        L.append("show tf 1")
     if c.get("needs_prefix"):
         # the module writes its own restart / output files (restartfreq): give them a place
         L.append("prefix %sout" % pre)
@@ -129,12 +131,14 @@ def parse_runs(lines):
             continue
         if w[0] == "STEP":
             blk = {"it": int(w[1]), "err": w[2] if len(w) > 2 else "", "cv": {}, "bias": {}, "atomf": {}, "energy": None,
-                   "log": []}
+                   "log": [], "tf": {}}
             cur["steps"].append(blk)
         elif w[0] == "ENERGY" and blk is not None:
             blk["energy"] = float.fromhex(w[1])
         elif w[0] == "CV" and blk is not None:
             blk["cv"][w[1]] = [float.fromhex(t) if t != "notset" else float("nan") for t in w[2:]]
+        elif w[0] == "TF" and blk is not None:
+            blk["tf"][w[1]] = [float.fromhex(t) if t != "notset" else float("nan") for t in w[2:]]
         elif w[0] == "BIAS" and blk is not None:
             blk["bias"][w[1]] = float.fromhex(w[2])
         elif w[0] == "ATOMF" and blk is not None:
@@ -203,7 +207,9 @@ def diff_blocks(a, b, tol=TOL, skip_tf=True):
         return ("err", a["err"], b["err"])
     if (a["energy"] is None) != (b["energy"] is None) or (a["energy"] is not None and not close(a["energy"], b["energy"], tol)):
         return ("energy", a["energy"], b["energy"])
-    for key in ("cv", "bias", "atomf"):
+    for key in ("cv", "bias", "atomf", "tf"):
+        if key == "tf" and ("tf" not in a or "tf" not in b):
+            continue
         if set(a[key]) != set(b[key]):
             return (key + ":names", sorted(a[key]), sorted(b[key]))
         for n in sorted(a[key]):
